@@ -1481,7 +1481,7 @@ Proof.
     split; [exact A1|]. split; [exact A3|]. split; [exact A4|]. split; [now rewrite A2|]. now exists fp.
 Qed.
 
-(* the full statement of new_task_cancelled (NOT proved; the proved part is new_task_first_step): three
+(* an earlier formulation of the full statement (superseded by new_task_cancelled below, which is proved): three
    iterations in which every op that does not resume t is a window op; then t has been resumed with a cancellation,
    or is done, or was at some moment not effectively cancelled.  What is missing: carrying "t reaches some
    cancelled hosted scope" through the ops before its first step (an unstarted task is skipped by deliveries, so
@@ -1537,4 +1537,443 @@ Proof.
     right. exists (HDeliver 1), [HStep 2]. split; [reflexivity|]. split; [vcr|]. split; [vcr|exact I].
   - eexists. assert (E : length (ready s) = 2) by vcr. rewrite E. unfold nt_ops.
     eapply wc_head; [vcr|]. eapply wc_head; [vcr|]. apply wc_nil.
+Qed.
+
+(* ================= new_task_cancelled: the three-iteration bound ================= *)
+Section TrackN.
+  Variable t : tid.
+
+  (* a task that takes no requests yet (not started): the walk to a cancelled scope survives any op of the others,
+     possibly ending at a nearer scope that was cancelled meanwhile, unless a shield is raised *)
+  Lemma trackN XE X a b c :
+    Good t a -> Good t b -> aw t XE X a b ->
+    (forall y, In y XE -> s_active (scopes a y) = false \/ s_parent (scopes b y) = s_parent (scopes a y)) ->
+    trk t c a -> (exists c', trk t c' b) \/ Esc t b.
+  Proof.
+    intros Ga Gb W HE [[Hd [k [Hc V]]] [Cc Hh]].
+    pose proof (tframe_core t a b (aw_t _ _ _ _ _ W (gd_k _ _ Ga))) as E.
+    pose proof (gd_tl _ _ Ga) as Ta. pose proof (gd_tl _ _ Gb) as Tb.
+    assert (Ak : s_active (scopes a k) = true) by apply (tl_cur_act _ Ta t k Hc).
+    assert (Hcb : k_cur (tasks b t) = Some k) by (rewrite (tcore_cur _ _ E); exact Hc).
+    assert (Hdb : k_done (tasks b t) = None) by (rewrite (tcore_done _ _ E); exact Hd).
+    assert (Wk : forall y, vis a y k -> s_active (scopes a y) = true /\ y < nscope a).
+    { intros y Hy. pose proof (walk_active a k y Ta Ak Hy) as Ay. split; [exact Ay|now apply active_lt]. }
+    assert (Mk : forall y, vis b y k -> s_cancelled (scopes b y) = true -> trk t y b).
+    { intros y Vy Cy. split; [split; [exact Hdb|exists k; now split]|]. split; [exact Cy|].
+      apply (gd_host _ _ Gb). apply (walk_active b k y Tb); [apply (tl_cur_act _ Tb t k Hcb)|exact Vy]. }
+    destruct (scan a b c k V) as [S1|[[y [A [B [C D]]]]|[y [B [C D]]]]].
+    - intros y Hy. destruct (Wk y Hy) as [Ay Ly].
+      destruct (in_dec Nat.eq_dec y XE) as [Hin|Hn]; [|now apply (aw_par _ _ _ _ _ W y Ly)].
+      destruct (HE y Hin) as [E0|E0]; [congruence|exact E0].
+    - left. exists c. apply Mk; [exact S1|]. destruct (Wk c V) as [_ Lc]. now apply (aw_mono _ _ _ _ _ W c Lc).
+    - left. exists y. now apply Mk.
+    - right. exists k, y. now repeat split.
+  Qed.
+
+  (* the entered scopes of an op are inactive, or (degenerate enters) nothing happened to them *)
+  Lemma xe_act_ok a u o :
+    reach_ok a -> u <> t -> actor o = Some u ->
+    forall y, In y (xe a o) ->
+      s_active (scopes a y) = false \/ s_parent (scopes (fst (puppet_op a u o)) y) = s_parent (scopes a y).
+  Proof.
+    intros R Hu Ea y Hy. pose proof (fresh_inactive a R) as Fr.
+    destruct o; cbn [xe] in Hy; try (destruct Hy; fail).
+    - (* AEnter *) destruct Hy as [<-|[]]. destruct (s_active (scopes a c)) eqn:Ec; [right|now left].
+      unfold puppet_op. rewrite (scope_enter_fail (begin_act a u) c u); [|exact Ec].
+      now rewrite (proj1 (ss_ret (begin_act a u) u _)).
+    - (* AGroupEnter *) destruct Hy as [<-|[]]. unfold puppet_op. set (s := begin_act a u).
+      destruct (g_entered (groups s g)); [right; now rewrite (proj1 (ss_ret s u _))|].
+      set (s1 := upd_group s g (gr_entered true)).
+      assert (Eg : g_scope (groups s1 g) = g_scope (groups a g)) by (unfold s1; cbn; unfold upd; now rewrite Nat.eqb_refl).
+      destruct (s_active (scopes a (g_scope (groups a g)))) eqn:Ec; [right|now left].
+      rewrite (scope_enter_fail s1 _ u); [|rewrite Eg; exact Ec]. now rewrite (proj1 (ss_ret s1 u _)).
+    - destruct Hy as [<-|[]]. now left.
+    - destruct Hy as [<-|[]]. now left.
+    - destruct Hy as [<-|[]]. now left.
+    - discriminate.
+  Qed.
+End TrackN.
+
+(* ---------------- entering a scope changes the walk view of that scope only ---------------- *)
+Lemma scope_cancel_view3 s c b y : y <> c -> view3 (scopes (scope_cancel s c b) y) = view3 (scopes s y).
+Proof.
+  intros Hy. unfold scope_cancel. destruct (s_cancelled (scopes s c)); [reflexivity|].
+  set (s2 := upd_scope (cancel_timeout s c) c _).
+  assert (E2 : view3 (scopes s2 y) = view3 (scopes s y)).
+  { unfold s2. cbn [scopes upd_scope set_scopes]. unfold upd. destruct (Nat.eqb_spec y c); [contradiction|].
+    pose proof (dq_scope _ _ (dq_cancel_timeout s c) y) as E. unfold view3.
+    now rewrite (vw_parent _ _ E), (vw_shield _ _ E), (vw_cancelled _ _ E). }
+  destruct (s_host (scopes s2 c)); [|exact E2]. rewrite <- E2. apply view3_core.
+  apply (kf_scopes _ _ (kframe_deliver_top s2 c) y).
+Qed.
+
+Lemma scope_timeout_view3 s c y : y <> c -> view3 (scopes (scope_timeout s c) y) = view3 (scopes s y).
+Proof.
+  intros Hy. unfold scope_timeout. destruct (s_deadline (scopes s c)); [|reflexivity].
+  destruct (Z.leb z (now s)); [now apply scope_cancel_view3|].
+  cbn. unfold upd. destruct (Nat.eqb_spec y c); [contradiction|reflexivity].
+Qed.
+
+Lemma enter_view3 s c u y : y <> c -> view3 (scopes (fst (scope_enter s c u)) y) = view3 (scopes s y).
+Proof.
+  intros Hy. destruct (s_active (scopes s c)) eqn:Ea; [now rewrite (scope_enter_fail s c u Ea)|].
+  rewrite (scope_enter_eq s c u Ea).
+  assert (E3 : view3 (scopes (enter_s3 s c u) y) = view3 (scopes s y)).
+  { unfold enter_s3. destruct (k_cur (tasks s u)) as [p|]; cbn; unfold upd.
+    - destruct (Nat.eqb_spec y p) as [->|Hp]; [|destruct (Nat.eqb_spec y c); [contradiction|reflexivity]].
+      destruct (Nat.eqb_spec p c); [contradiction|reflexivity].
+    - destruct (Nat.eqb_spec y c); [contradiction|reflexivity]. }
+  assert (E5 : view3 (scopes (enter_s5 s c u) y) = view3 (scopes s y)).
+  { unfold enter_s5. cbn [scopes upd_scope set_scopes]. unfold upd. destruct (Nat.eqb_spec y c); [contradiction|].
+    now rewrite scope_timeout_view3. }
+  destruct (s_cancelled (scopes (enter_s5 s c u) c)); [|exact E5]. rewrite <- E5. apply view3_core.
+  apply (kf_scopes _ _ (kframe_deliver_top (enter_s5 s c u) c) y).
+Qed.
+
+Lemma enter_parent s c u : s_active (scopes s c) = false ->
+  s_parent (scopes (fst (scope_enter s c u)) c) = k_cur (tasks s u).
+Proof.
+  intros Ea. rewrite (scope_enter_eq s c u Ea).
+  assert (E3 : s_parent (scopes (enter_s3 s c u) c) = k_cur (tasks s u)).
+  { unfold enter_s3. destruct (k_cur (tasks s u)) as [p|] eqn:Ep; cbn; unfold upd; rewrite ?Nat.eqb_refl.
+    - destruct (Nat.eqb_spec c p); [subst; cbn; now rewrite Nat.eqb_refl|reflexivity].
+    - reflexivity. }
+  assert (E5 : s_parent (scopes (enter_s5 s c u) c) = k_cur (tasks s u)).
+  { unfold enter_s5. cbn [scopes upd_scope set_scopes]. unfold upd. rewrite Nat.eqb_refl. cbn [s_parent sc_active].
+    rewrite (tq_parent _ _ (treq_scope_timeout (enter_s3 s c u) c)). exact E3. }
+  destruct (s_cancelled (scopes (enter_s5 s c u) c)); [|exact E5].
+  now rewrite (core_parent _ _ (kf_scopes _ _ (kframe_deliver_top (enter_s5 s c u) c) c)).
+Qed.
+
+Section NewTask4.
+  Variable t : tid.
+  Definition trkE (s : st) : Prop := exists c, trk t c s.
+
+  Lemma nstep_act_trk a o :
+    NInv t a -> trkE a -> other_act t o -> op_ok a o = true ->
+    (trkE (fst (step a o))) \/ Esc t (fst (step a o)).
+  Proof.
+    intros N [c Tk] Ho Hok. pose proof (aw_step_act t a o Ho (ni_alloc _ _ N)) as W.
+    pose proof (good_reach t a (ni_reach _ _ N) (ni_run _ _ N)) as Ga.
+    assert (Gb : Good t (fst (step a o))).
+    { apply good_reach; [apply reach_ok_step; [apply N|exact Hok]|apply (aw_run _ _ _ _ _ W), N]. }
+    apply (trackN t _ _ a _ c Ga Gb W); [|exact Tk].
+    intros y Hy. unfold step. destruct (actor o) as [u|] eqn:Ea.
+    - assert (Hu : u <> t).
+      { destruct o; cbn [other_act actor] in *; try discriminate; inversion Ea; subst; intros ->; now apply Ho. }
+      destruct (negb (idle a u)); [now right|].
+      destruct o; cbn [actor] in Ea; try discriminate; inversion Ea; subst.
+      all: try (match goal with |- context [puppet_op _ _ ?oo] => apply (xe_act_ok t a u oo (ni_reach _ _ N) Hu eq_refl y Hy) end).
+      all: cbn [xe] in Hy; destruct Hy.
+    - destruct o; cbn [actor] in Ea; try discriminate; cbn [xe] in Hy; try (destruct Hy; fail). destruct Ho.
+  Qed.
+
+  Lemma nstep_head_trk a h r :
+    NInv t a -> trkE a -> ready a = h :: r -> other_head t h -> op_ok a (ARun h) = true ->
+    (trkE (fst (step a (ARun h)))) \/ Esc t (fst (step a (ARun h))).
+  Proof.
+    intros N [c Tk] E Ho Hok. pose proof (aw_run_head t a h r E Ho) as W.
+    pose proof (good_reach t a (ni_reach _ _ N) (ni_run _ _ N)) as Ga.
+    assert (Ga' : Good t (set_ready a r)).
+    { apply (Good_same t a _ Ga); try reflexivity; [apply N|]. intros y; now repeat split. }
+    assert (Gb : Good t (fst (step a (ARun h)))).
+    { apply good_reach; [apply reach_ok_step; [apply N|exact Hok]|apply (aw_run _ _ _ _ _ W), N]. }
+    apply (trackN t _ _ (set_ready a r) _ c Ga' Gb W); [|apply (trk_view t c a); auto].
+    intros y Hy. left. change (scopes (set_ready a r) y) with (scopes a y).
+    destruct h as [u|u g|x|u|g tm|x tm]; cbn [xe] in Hy; try (destruct Hy; fail);
+      unfold xe_ctl in Hy; destruct (k_ctl (tasks a u)) eqn:Ec; try (destruct Hy; fail); destruct Hy as [<-|[]];
+      first [apply (fresh_inactive a (ni_reach _ _ N))|apply (new_hscope_inactive a u (ni_reach _ _ N) Ec)].
+  Qed.
+
+  Lemma vis_transfer a b c k : vis a c k ->
+    (forall y, vis a y k -> y <> c -> view3 (scopes b y) = view3 (scopes a y)) -> vis b c k.
+  Proof.
+    intros V. induction V as [|x p E1 E2 E3 V IH]; intros H; [apply vis_here|].
+    destruct (Nat.eq_dec x c) as [->|Hx]; [apply vis_here|].
+    pose proof (H x (vis_here a x) Hx) as E. unfold view3 in E. injection E as P1 P2 P3.
+    apply (vis_up b c x p); [rewrite P2; exact E1|rewrite P3; exact E2|rewrite P1; exact E3|].
+    apply IH. intros y Hy Hn. apply H; [eapply vis_up; eauto|exact Hn].
+  Qed.
+
+  (* t's own first step keeps it under a cancelled scope (possibly its own handle scope), unless the handle scope
+     is shielded *)
+  Lemma first_step_trk a r :
+    NInv t a -> ready a = HStep t :: r -> k_must (tasks a t) = false -> trkE a ->
+    trkE (fst (step a (ARun (HStep t)))) \/ Esc t (fst (step a (ARun (HStep t)))).
+  Proof.
+    intros N E Hm [c [[Hd [k [Hc V]]] [Cc Hh]]].
+    pose proof (ni_reach _ _ N) as R.
+    assert (Rb : reach_ok (fst (step a (ARun (HStep t))))) by (apply reach_ok_step; [exact R|reflexivity]).
+    destruct (first_step t a r N E) as [F0 _]. destruct (F0 Hm) as [A1 [A2 [A3 [A4 [A5 _]]]]].
+    assert (Gb : Good t (fst (step a (ARun (HStep t))))) by (apply good_reach; [exact Rb|rewrite A5; discriminate]).
+    revert A3 Gb. rewrite (step_run_head a (HStep t) r E). set (a' := set_ready a r).
+    unfold resume. pose proof (incoming_ctl a' t None) as Ec. pose proof (incoming_task a' t None t) as Et.
+    rewrite Nat.eqb_refl in Et.
+    assert (Ei : snd (incoming a' t None) = None).
+    { unfold incoming. cbn [snd]. change (tasks a' t) with (tasks a t). now rewrite Hm. }
+    assert (Er : running (fst (incoming a' t None)) = Some t) by reflexivity.
+    assert (Es : scopes (fst (incoming a' t None)) = scopes a) by reflexivity.
+    destruct (incoming a' t None) as [s inc]. cbn [fst snd] in *. subst inc.
+    rewrite Ec. change (tasks a' t) with (tasks a t) in *. rewrite (ni_ctl _ _ N). cbn [fst].
+    set (s1 := upd_task s t (tk_started true)).
+    assert (E1 : tasks s1 t = tk_started true (tk_must false (k_msg (tasks a t)) (tk_waiter None (tasks a t)))).
+    { unfold s1. cbn. unfold upd. rewrite Nat.eqb_refl. now rewrite Et. }
+    destruct (reach_sinv a R) as [[T C] _].
+    assert (A : alloc_t a t).
+    { destruct (alloc_t_dec a t) as [A|A]; [exact A|]. pose proof (ni_ctl _ _ N) as X.
+      rewrite (c_unalloc _ C t A) in X. discriminate. }
+    destruct (c_ok _ C t A) as [K1 _]. destruct (K1 (ni_ctl _ _ N)) as [_ [Hg _]].
+    assert (Eg : k_group (tasks s1 t) = k_group (tasks a t)) by (rewrite E1; reflexivity).
+    assert (Ehs : k_hscope (tasks s1 t) = k_hscope (tasks a t)) by (rewrite E1; reflexivity).
+    rewrite Eg. destruct (k_group (tasks a t)) as [g|] eqn:Egg; [|now elim Hg].
+    set (hs := k_hscope (tasks s1 t)) in *.
+    assert (Ha : s_active (scopes s1 hs) = false).
+    { change (scopes s1) with (scopes s). rewrite Es. rewrite Ehs.
+      apply (new_hscope_inactive a t R (ni_ctl _ _ N)). }
+    set (s2 := fst (scope_enter s1 hs t)).
+    intros A3 Gb.
+    assert (Esc2 : forall y, scopes (set_running (park s2 t) None) y = scopes s2 y).
+    { intros y. cbn [scopes set_running]. now rewrite (proj1 (ss_park s2 t)). }
+    set (b := set_running (park s2 t) None) in *.
+    assert (Hcb : k_cur (tasks b t) = Some hs).
+    { unfold b. cbn [tasks set_running]. destruct (park_fields s2 t) as [P1 _].
+      - unfold s2. rewrite (scope_enter_own s1 hs t Er Ha), E1. reflexivity.
+      - rewrite P1. cbn. unfold s2. rewrite (scope_enter_own s1 hs t Er Ha). reflexivity. }
+    assert (Hk1 : k_cur (tasks s1 t) = Some k) by (rewrite E1; cbn; exact Hc).
+    assert (Ep : s_parent (scopes b hs) = Some k).
+    { rewrite Esc2. unfold s2. rewrite (enter_parent s1 hs t Ha). exact Hk1. }
+    assert (Ev : forall y, y <> hs -> view3 (scopes b y) = view3 (scopes a y)).
+    { intros y Hy. rewrite Esc2. unfold s2. rewrite (enter_view3 s1 hs t y Hy). change (scopes s1 y) with (scopes s y).
+      now rewrite Es. }
+    pose proof (gd_tl _ _ Gb) as Tb.
+    assert (Ahs : s_active (scopes b hs) = true) by apply (tl_cur_act _ Tb t hs Hcb).
+    assert (Mk : forall y, vis b y hs -> s_cancelled (scopes b y) = true -> trk t y b).
+    { intros y Vy Cy. split; [split; [exact A3|exists hs; now split]|]. split; [exact Cy|].
+      apply (gd_host _ _ Gb). now apply (walk_active b hs y Tb). }
+    destruct (s_cancelled (scopes b hs)) eqn:Chs; [left; exists hs; apply Mk; [apply vis_here|exact Chs]|].
+    destruct (s_shield (scopes b hs)) eqn:Shs; [right; exists hs, hs; repeat split; auto; apply vis_here|].
+    left. exists c. apply Mk.
+    - eapply vis_up; [exact Shs|exact Chs|exact Ep|]. apply (vis_transfer a b c k V).
+      intros y Vy _. apply Ev. intros ->.
+      pose proof (walk_active a k hs (Tree_TreeL _ T) (tr_cur_act _ T t k Hc) Vy) as X.
+      change (scopes s1) with (scopes s) in Ha. rewrite Es in Ha. congruence.
+    - assert (Hch : c <> hs).
+      { intros ->. pose proof (walk_active a k hs (Tree_TreeL _ T) (tr_cur_act _ T t k Hc) V) as X.
+        change (scopes s1) with (scopes s) in Ha. rewrite Es in Ha. congruence. }
+      pose proof (Ev c Hch) as E0. unfold view3 in E0. inversion E0. congruence.
+  Qed.
+End NewTask4.
+
+Section NewTask5.
+  Variable t : tid.
+
+  (* what the theorem promises about a run *)
+  Definition GoalN (s : st) (ops : list op) : Prop :=
+    (exists si h, In (si, ARun h) (trace s ops) /\ resumes t h /\
+       ((exists o, snd (step si (ARun h)) = RExc (ECancel o)) \/
+        (exists g, h = HWake t g /\ ((exists v, f_st (futs si g) = FRes v) \/ (exists e, f_st (futs si g) = FExc e))))) \/
+    (exists si, In si (states s ops) /\ k_done (tasks si t) <> None) \/
+    (exists si, In si (states s ops) /\ eff_cancelled_from (nscope si) si (k_cur (tasks si t)) = false).
+
+  Lemma states_cons_in s o r si : In si (states (fst (step s o)) r) -> In si (states s (o :: r)).
+  Proof. intros H. now right. Qed.
+
+  Lemma GoalN_cons s o r : GoalN (fst (step s o)) r -> GoalN s (o :: r).
+  Proof.
+    intros [[si [h [H1 H2]]]|[[si [H1 H2]]|[si [H1 H2]]]].
+    - left. exists si, h. split; [now right|exact H2].
+    - right; left. exists si. split; [now apply states_cons_in|exact H2].
+    - right; right. exists si. split; [now apply states_cons_in|exact H2].
+  Qed.
+
+  Lemma GoalN_app_l s a b : GoalN s a -> GoalN s (a ++ b).
+  Proof.
+    intros [[si [h [H1 H2]]]|[[si [H1 H2]]|[si [H1 H2]]]].
+    - left. exists si, h. split; [rewrite trace_app; apply in_or_app; now left|exact H2].
+    - right; left. exists si. split; [apply states_in_app; now left|exact H2].
+    - right; right. exists si. split; [apply states_in_app; now left|exact H2].
+  Qed.
+
+  Lemma GoalN_app_r s a b : GoalN (final step s a) b -> GoalN s (a ++ b).
+  Proof.
+    intros [[si [h [H1 H2]]]|[[si [H1 H2]]|[si [H1 H2]]]].
+    - left. exists si, h. split; [rewrite trace_app; apply in_or_app; now right|exact H2].
+    - right; left. exists si. split; [apply states_in_app; now right|exact H2].
+    - right; right. exists si. split; [apply states_in_app; now right|exact H2].
+  Qed.
+
+  Lemma GoalN_esc_here s o r : Esc t (fst (step s o)) -> GoalN s (o :: r).
+  Proof.
+    intros H. right; right. exists (fst (step s o)). split; [right; destruct r; now left|].
+    now apply Esc_not_effectively_cancelled.
+  Qed.
+
+  Lemma GoalN_found f c s ops : found t f c s ops -> GoalN s ops.
+  Proof.
+    intros [si [q [Hi [Li [Np Er]]]]]. left. exists si, (HWake t f). split; [exact Hi|]. split; [right; now exists f|].
+    destruct (wake_result t f si q (li_waiter _ _ _ _ Li) (li_ctl _ _ _ _ Li) Er Np) as [H|H]; [now left|right; now exists f].
+  Qed.
+
+  Lemma GoalN_escd s ops : escd t s ops -> GoalN s ops.
+  Proof. intros [si [Hi He]]. right; right. exists si. split; [exact Hi|now apply Esc_not_effectively_cancelled]. Qed.
+
+  (* window: acts of others and head runs that do not resume t, until t's first step; from then on the window of
+     C03_cancel_latency_any_activity for the future t is parked on *)
+  Fixpoint wok2 (s : st) (ops : list op) : Prop :=
+    match ops with
+    | [] => True
+    | o :: r =>
+        (o = ARun (HStep t) /\
+         forall fp, k_waiter (tasks (fst (step s o)) t) = Some fp -> wok0 t fp (fst (step s o)) r) \/
+        (wopn t s o /\ o <> ARun (HStep t) /\ wok2 (fst (step s o)) r)
+    end.
+
+  (* iteration in which t takes its first step: up to that step the invariant and the walk survive (or t
+     escapes); the continuation K receives the state after the step and the rest of the iteration *)
+  Lemma phase_first n s ops s' : wcyc n s ops s' -> forall rest pre post,
+    wok2 s (ops ++ rest) -> NInv t s -> trkE t s -> ready s = pre ++ HStep t :: post -> length pre < n ->
+    (forall si q m opsB, NInv t si -> trkE t si -> ready si = HStep t :: q ->
+        wcyc m (fst (step si (ARun (HStep t)))) opsB s' ->
+        (forall fp, k_waiter (tasks (fst (step si (ARun (HStep t)))) t) = Some fp ->
+                    wok0 t fp (fst (step si (ARun (HStep t)))) (opsB ++ rest)) ->
+        GoalN (fst (step si (ARun (HStep t)))) (opsB ++ rest)) ->
+    GoalN s (ops ++ rest).
+  Proof.
+    induction 1 as [s|n s h q ops s' E Hc IH|n s o ops s' Hn Hc IH|n s E]; intros rest pre post Wk N Tk Er Hl K.
+    - lia.
+    - cbn [app wok2] in Wk. destruct Wk as [[Eo Wf]|[[[Ho _]|[h' [q' [Eo [Er' [Hok Hoh]]]]]] [Hne Wk']]].
+      + inversion Eo; subst h. cbn [app]. apply GoalN_cons. now apply (K s q n ops).
+      + destruct Ho.
+      + inversion Eo; subst h'. assert (Hh : h <> HStep t) by (intros ->; now apply Hne).
+        destruct pre as [|h1 pre]; cbn [app] in Er; rewrite E in Er; inversion Er; subst; [now elim Hh|].
+        cbn [app]. destruct (nstep_head_trk t s h1 _ N Tk E Hoh Hok) as [Tk'|Ex]; [|now apply GoalN_esc_here].
+        apply GoalN_cons.
+        destruct (nstep_head t s h1 _ N E Hoh Hh Hok) as [N' [_ [P [new [Eq HP]]]]].
+        rewrite filter_app in Eq. cbn [filter] in Eq. rewrite (HP (HStep t) eq_refl) in Eq.
+        rewrite <- app_assoc in Eq. cbn [app] in Eq. pose proof (filter_len P pre) as Fl. cbn [length] in Hl.
+        apply (IH rest (filter P pre) (filter P post ++ new) Wk' N' Tk' Eq ltac:(lia) K).
+    - cbn [app wok2] in Wk. destruct Wk as [[Eo _]|[[[Ho Hok]|[h' [q' [Eo _]]]] [Hne Wk']]];
+        [now elim (Hn (HStep t))| |now elim (Hn h')].
+      cbn [app]. destruct (nstep_act_trk t s o N Tk Ho Hok) as [Tk'|Ex]; [|now apply GoalN_esc_here].
+      apply GoalN_cons.
+      destruct (nstep_act t s o N Ho Hok) as [N' [_ [P [new [Eq HP]]]]].
+      rewrite Er, filter_app in Eq. cbn [filter] in Eq. rewrite (HP (HStep t) eq_refl) in Eq.
+      rewrite <- app_assoc in Eq. cbn [app] in Eq. pose proof (filter_len P pre) as Fl.
+      apply (IH rest (filter P pre) (filter P post ++ new) Wk' N' Tk' Eq ltac:(lia) K).
+    - rewrite E in Er. destruct pre; discriminate.
+  Qed.
+End NewTask5.
+
+(* C03 new_task_cancelled.  A freshly spawned task t (frame CNew, first step queued, not started) reaches the
+   cancelled hosted scope c at the boundary of an iteration.  Three iterations follow in which everything but t is
+   unconstrained (wok2: before t's first step any act of others and any head-of-queue callback not resuming t; after
+   it the window of C03_cancel_latency_any_activity).  Then (GoalN):
+   a resumption of t raised a cancellation (or the future it was parked on was completed with a value first), or
+   t is done (a request recorded before its first step ends it without running), or at some state of the run t
+   was not effectively cancelled (somebody raised a shield between t and every cancelled scope - the handle scope
+   included). *)
+Theorem new_task_cancelled t c s ops1 ops2 ops3 s1 s2 s3 :
+  reach_ok s -> running s <> Some t -> k_ctl (tasks s t) = CNew -> k_started (tasks s t) = false ->
+  k_waiter (tasks s t) = None -> k_done (tasks s t) = None -> In (HStep t) (ready s) ->
+  s_cancelled (scopes s c) = true -> s_host (scopes s c) <> None -> reaches s t c ->
+  wcyc (length (ready s)) s ops1 s1 -> wcyc (length (ready s1)) s1 ops2 s2 -> wcyc (length (ready s2)) s2 ops3 s3 ->
+  wok2 t s (ops1 ++ ops2 ++ ops3) ->
+  GoalN t s (ops1 ++ ops2 ++ ops3).
+Proof.
+  intros R Hr Hc Hs Hw Hd Hin Cc Hh Rt C1 C2 C3 Wk.
+  assert (At : t < ntask s).
+  { destruct Rt as [_ [x [Hx _]]]. pose proof (tr_cur_alloc _ (reach_tree s R) t x Hx) as A. apply A. }
+  assert (N : NInv t s) by (constructor; assumption).
+  assert (Tk : trkE t s) by (exists c; exact (conj Rt (conj Cc Hh))).
+  destruct (in_split _ _ Hin) as [pre [post E]].
+  assert (Hl : length pre < length (ready s)) by (rewrite E, app_length; cbn; lia).
+  apply (phase_first t _ s ops1 s1 C1 (ops2 ++ ops3) pre post Wk N Tk E Hl).
+  intros si q m opsB Ni Tki Eri Cb Wf. set (b := fst (step si (ARun (HStep t)))) in *.
+  destruct (first_step t si q Ni Eri) as [F0 F1]. fold b in F0, F1.
+  destruct (k_must (tasks si t)) eqn:Hm.
+  { (* a request recorded before the first step: the task is done *)
+    destruct (F1 eq_refl) as [_ [e Ed]]. right; left. exists b. split; [|rewrite Ed; discriminate].
+    destruct (opsB ++ ops2 ++ ops3); now left. }
+  destruct (F0 eq_refl) as [A1 [A2 [A3 [A4 [A5 [fp [A6 A7]]]]]]].
+  assert (Rb : reach_ok b) by (apply reach_ok_step; [apply Ni|reflexivity]).
+  destruct (first_step_trk t si q Ni Eri Hm Tki) as [[c' Tb]|Ex].
+  2:{ right; right. exists b. split; [destruct (opsB ++ ops2 ++ ops3); now left|now apply Esc_not_effectively_cancelled]. }
+  fold b in Tb.
+  assert (Lb : LInv t fp c' b).
+  { constructor; [exact Rb|rewrite A5; discriminate|exact A6|exact A1|exact A3|now rewrite A2|].
+    left. exact (conj A7 (conj A4 Tb)). }
+  assert (Atb : t < ntask b).
+  { destruct Tb as [[_ [x [Hx _]]] _]. pose proof (tr_cur_alloc _ (reach_tree b Rb) t x Hx) as A. apply A. }
+  pose proof (wok0_wok t fp _ _ (Wf fp A6)) as Wb.
+  pose proof (wcyc_final _ _ _ _ Cb) as E1. pose proof (wcyc_final _ _ _ _ C2) as E2.
+  destruct (phase_keep t fp c' m b opsB s1 Cb (ops2 ++ ops3) Wb Lb Atb) as [F|[X|[L1 [At1 [_ W1]]]]].
+  - apply GoalN_app_l. now apply (GoalN_found t fp c').
+  - apply GoalN_app_l. now apply GoalN_escd.
+  - apply GoalN_app_r. rewrite <- E1.
+    destruct (fstate_pending_dec (f_st (futs s1 fp))) as [Hp1|Np1].
+    + destruct (li_cases _ _ _ _ L1) as [[_ [_ T1]]|[Np _]]; [|contradiction].
+      destruct T1 as [Rt1 [Cc1 Hh1]].
+      destruct (delivery_alive s1 c' (li_reach _ _ _ _ L1) Cc1 Hh1 (ex_intro _ t Rt1)) as [_ Hin1].
+      destruct (in_split _ _ Hin1) as [pre1 [post1 Er1]].
+      assert (Hl1 : length pre1 < length (ready s1)) by (rewrite Er1, app_length; cbn; lia).
+      destruct (phase_deliver t fp c' _ s1 ops2 s2 C2 ops3 pre1 post1 W1 L1 At1 Er1 Hl1) as [F|[X|[L2 [At2 [Np2 W2]]]]].
+      * apply GoalN_app_l. now apply (GoalN_found t fp c').
+      * apply GoalN_app_l. now apply GoalN_escd.
+      * apply GoalN_app_r. rewrite <- E2.
+        destruct (li_cases _ _ _ _ L2) as [[Hp2 _]|[_ Hin2]]; [contradiction|].
+        destruct (in_split _ _ Hin2) as [pre2 [post2 Er2]].
+        assert (Hl2 : length pre2 < length (ready s2)) by (rewrite Er2, app_length; cbn; lia).
+        assert (W2' : wok t fp s2 (ops3 ++ [])) by now rewrite app_nil_r.
+        destruct (phase_wake t fp c' _ s2 ops3 s3 C3 [] pre2 post2 W2' L2 At2 Np2 Er2 Hl2) as [F|X];
+          [now apply (GoalN_found t fp c')|now apply GoalN_escd].
+    + destruct (li_cases _ _ _ _ L1) as [[Hp1 _]|[_ Hin1]]; [contradiction|].
+      destruct (in_split _ _ Hin1) as [pre1 [post1 Er1]].
+      assert (Hl1 : length pre1 < length (ready s1)) by (rewrite Er1, app_length; cbn; lia).
+      apply GoalN_app_l.
+      destruct (phase_wake t fp c' _ s1 ops2 s2 C2 ops3 pre1 post1 W1 L1 At1 Np1 Er1 Hl1) as [F|X];
+        [now apply (GoalN_found t fp c')|now apply GoalN_escd].
+Qed.
+
+(* non-vacuity of new_task_cancelled: the child spawned into the cancelled group (nt_pre).  Iteration 1: the
+   delivery callback skips the unstarted child, the child takes its first step; iteration 2: the host (an idle
+   puppet in the cancelled scope) is woken, the delivery callback now cancels the child's wait; iteration 3: the
+   child's wake-up raises the cancellation. *)
+Definition nt_ops1 : list op := [ARun (HDeliver 1); ARun (HStep 2)].
+Definition nt_ops2 : list op := [ARun (HWake 1 5); ARun (HDeliver 1)].
+Definition nt_ops3 : list op := [ARun (HWake 1 7); ARun (HWake 2 6); ARun (HDeliver 1)].
+
+Example nt3_premises :
+  let s := final step init nt_pre in
+  wok2 2 s (nt_ops1 ++ nt_ops2 ++ nt_ops3) /\
+  exists s1 s2 s3, wcyc (length (ready s)) s nt_ops1 s1 /\ wcyc (length (ready s1)) s1 nt_ops2 s2 /\
+                   wcyc (length (ready s2)) s2 nt_ops3 s3.
+Proof.
+  cbv zeta. set (s := final step init nt_pre). split.
+  - unfold nt_ops1, nt_ops2, nt_ops3. cbn [app wok2].
+    right. split; [|split; [discriminate|]].
+    { right. exists (HDeliver 1), [HStep 2]. split; [reflexivity|]. split; [vcr|]. split; [vcr|exact I]. }
+    left. split; [reflexivity|]. intros fp Hfp.
+    assert (Efp : fp = 6) by (vm_compute in Hfp; congruence). subst fp. cbn [wok0].
+    right. split; [right; exists (HWake 1 5), [HDeliver 1]; split; [reflexivity|split; [vcr|]]|].
+    { split; [vcr|]. split; [discriminate|intros N; discriminate N]. }
+    right. split; [right; exists (HDeliver 1), []; split; [reflexivity|split; [vcr|]]|].
+    { split; [vcr|]. split; [discriminate|exact I]. }
+    right. split; [right; exists (HWake 1 7), [HWake 2 6; HDeliver 1]; split; [reflexivity|split; [vcr|]]|].
+    { split; [vcr|]. split; [discriminate|intros N; discriminate N]. }
+    left. split; [reflexivity|]. vm_compute. discriminate.
+  - eexists. eexists. eexists. split; [|split].
+    + assert (E : length (ready s) = 2) by vcr. rewrite E. unfold nt_ops1.
+      eapply wc_head; [vcr|]. eapply wc_head; [vcr|]. apply wc_nil.
+    + match goal with |- wcyc (length (ready ?x)) _ _ _ => assert (E : length (ready x) = 2) by vcr; rewrite E end.
+      unfold nt_ops2. eapply wc_head; [vcr|]. eapply wc_head; [vcr|]. apply wc_nil.
+    + match goal with |- wcyc (length (ready ?x)) _ _ _ => assert (E : length (ready x) = 3) by vcr; rewrite E end.
+      unfold nt_ops3. eapply wc_head; [vcr|]. eapply wc_head; [vcr|]. eapply wc_head; [vcr|]. apply wc_nil.
+Qed.
+
+Example nt3_instance : GoalN 2 (final step init nt_pre) (nt_ops1 ++ nt_ops2 ++ nt_ops3).
+Proof.
+  destruct nt_premises as (H1 & H2 & H3 & H4 & H5 & H6 & H7 & _ & H8 & H9 & _).
+  destruct nt3_premises as (W & s1 & s2 & s3 & C1 & C2 & C3).
+  assert (Hh : s_host (scopes (final step init nt_pre) 1) <> None) by (vm_compute; discriminate).
+  exact (new_task_cancelled 2 1 _ _ _ _ s1 s2 s3 H1 H2 H3 H4 H5 H6 H7 H8 Hh H9 C1 C2 C3 W).
 Qed.
